@@ -56,6 +56,7 @@ class _View(Contract):
 
 class GenTraceHeaderView(_View):
     """gen_trace_header(i) per GenTraceHeader: a fresh dict; field 109 as the template / footer says (HDRVAL abstract)"""
+    only_in = ('SgzConverter.regenerate_trace_header', 'SgzConverter.write_segy')
     def fresh_result(self, c, a):
         i = a['index']
         d = {1: mk_int(z3.Function('HDRVAL', z3.IntSort(), z3.IntSort(), z3.IntSort())(zint(i), z3.IntVal(1))),
@@ -68,6 +69,7 @@ fuc('read.py::SgzReader.gen_trace_header', props=[], modular=True)(GenTraceHeade
 
 class ReadVariantHeadersView(_View):
     """read_variant_headers(): loads the footer arrays (cost / caching only; values flow through gen_trace_header)"""
+    only_in = ('SgzConverter.write_segy',)
     def fresh_result(self, c, a):
         c.ghost['variant_headers_loaded'] = True
         return None
@@ -138,6 +140,7 @@ class ConvertToSegy(ReadContract):
 
 
 class WriteSegyView(_View):
+    only_in = ('SgzConverter.convert_to_segy',)
     def fresh_result(self, c, a):
         return None
 
